@@ -1,6 +1,162 @@
 import Srsim.Spec.Proto
-/-! placeholder, replaced by the full theorem file once its proofs are in -/
-namespace Proto
-theorem C08_monitor_rejects_after_termination :
-    step (α := Rat) { stage := 13 } (.phase1End) = none := by decide
-end Proto
+import Srsim.Proofs.SimLemmas
+/-!
+# C08 — death is final and the dead do not act
+
+Lemmas about the battle-driver model `Sim` (see `Model/Sim.lean`), for every state, content and oracle.
+-/
+namespace Sim
+variable {α : Type} [Num α]
+
+/-- **The dead stay dead**: an HP change on a unit that is dead (reached zero, no revive) changes
+nothing and emits nothing — it cannot be healed back before (or after) it is announced. -/
+theorem C08_dead_final (s : S α) (t : Int) (r : α) (src : Int) (dmg : Bool) (h : lifeOf s t = 1) :
+    hpSet s t r src dmg = s := by
+  unfold lifeOf at h
+  unfold hpSet
+  split
+  · rfl
+  · next u hu =>
+    rw [hu] at h
+    simp only at h
+    simp [h]
+
+/-- **Reaching zero**: when a living unit's ratio goes to a non-positive value, it becomes dead
+(no revive) or is held in limbo (revive) and the revive's heal is queued; a damaging change
+records the attacker as last attacker. -/
+theorem C08_reaching_zero (s : S α) (t : Int) (u : U α) (r : α) (src : Int) (dmg : Bool)
+    (hu : unitOf s t = some u) (hl : u.life ≠ 1) (hne : Num.eqb u.ratio r = false) (hr : ¬ (0 : α) < r)
+    (hid : u.id = t) :
+    unitOf (hpSet s t r src dmg) t =
+      some { u with ratio := r, lastAtk := if dmg then src else u.lastAtk, life := if u.revive then 2 else 1 } ∧
+    (u.revive = false → (hpSet s t r src dmg).queue = s.queue) := by
+  have hl' : (u.life == 1) = false := by simpa using hl
+  unfold hpSet
+  rw [hu]
+  simp only [hl', hne, Bool.false_eq_true, ite_false, if_neg hr]
+  cases hrev : u.revive
+  · simp only [Bool.false_eq_true, ite_false, unitOf_emit]
+    refine ⟨?_, fun _ => rfl⟩
+    exact unitOf_setUnit_eq s u _ t hu hid
+  · simp only [ite_true, unitOf_emit, unitOf_enqueue]
+    refine ⟨?_, fun h => by simp at h⟩
+    exact unitOf_setUnit_eq s u _ t hu hid
+
+/-- units that a death check removes -/
+def dying (s : S α) (killLimbo : Bool) : List Int :=
+  s.chars.filter (willDie s killLimbo) ++ s.enemies.filter (willDie s killLimbo)
+
+/-- **Death check, lists**: exactly the units that are dead (and, at the end of the turn, those
+still in limbo) leave the lists of living characters and enemies; the others stay, in order. -/
+theorem C08_deathCheck_lists (s : S α) (killLimbo : Bool) :
+    (deathCheck s killLimbo).chars = s.chars.filter (fun id => !willDie s killLimbo id) ∧
+    (deathCheck s killLimbo).enemies = s.enemies.filter (fun id => !willDie s killLimbo id) := by
+  rw [deathCheck_eq]
+  exact dfold_chars _ _
+
+/-- **Death check, announcements**: the events added are, for each removed unit in order, possibly
+an energy change of the killer followed by exactly one `death` event naming the unit's last
+attacker; nothing else. -/
+def announces (s : S α) (evsNew : List (Ev α)) (ts : List Int) : Prop :=
+  (evsNew.filterMap fun e => match e with | .death t _ => some t | _ => none) = ts ∧
+  (∀ e ∈ evsNew, (∃ t k, e = .death t k) ∨ (∃ t o n, e = .energy t o n)) ∧
+  (∀ t k, Ev.death t k ∈ evsNew → k = killerOf s t)
+
+theorem dfold_announces (ts : List Int) (s : S α) :
+    ∃ evsNew, (ts.foldl dstep s).evs = evsNew.reverse ++ s.evs ∧ announces s evsNew ts := by
+  induction ts generalizing s with
+  | nil => exact ⟨[], rfl, rfl, by simp, by simp⟩
+  | cons a rest ih =>
+    obtain ⟨new', h1, h2, h3, h4⟩ := ih (dstep s a)
+    simp only [List.foldl_cons]
+    rcases dstep_evs s a with he | ⟨k, o, n, he⟩
+    · refine ⟨.death a (killerOf s a) :: new', ?_, ?_, ?_, ?_⟩
+      · rw [h1, he]; simp
+      · simp [h2]
+      · intro e hm
+        rcases List.mem_cons.1 hm with rfl | hm
+        · exact Or.inl ⟨_, _, rfl⟩
+        · exact h3 e hm
+      · intro t k hm
+        rcases List.mem_cons.1 hm with heq | hm
+        · cases heq; rfl
+        · rw [h4 t k hm, dstep_killerOf]
+    · refine ⟨.energy k o n :: .death a (killerOf s a) :: new', ?_, ?_, ?_, ?_⟩
+      · rw [h1, he]; simp
+      · simp [h2]
+      · intro e hm
+        rcases List.mem_cons.1 hm with rfl | hm
+        · exact Or.inr ⟨_, _, _, rfl⟩
+        rcases List.mem_cons.1 hm with rfl | hm
+        · exact Or.inl ⟨_, _, rfl⟩
+        · exact h3 e hm
+      · intro t k' hm
+        rcases List.mem_cons.1 hm with heq | hm
+        · cases heq
+        rcases List.mem_cons.1 hm with heq | hm
+        · cases heq; rfl
+        · rw [h4 t k' hm, dstep_killerOf]
+
+theorem C08_deathCheck_announces (s : S α) (killLimbo : Bool) :
+    ∃ evsNew, (deathCheck s killLimbo).evs = evsNew.reverse ++ s.evs ∧ announces s evsNew (dying s killLimbo) := by
+  rw [deathCheck_eq]
+  obtain ⟨new, h1, h2⟩ := dfold_announces (dying s killLimbo)
+    { s with chars := s.chars.filter (fun id => !willDie s killLimbo id),
+             enemies := s.enemies.filter (fun id => !willDie s killLimbo id) }
+  exact ⟨new, h1, h2⟩
+
+/-- **Limbo is kept during the turn and ends with it**: a mid-turn death check never removes a
+unit in limbo; the end-of-turn check removes it. A living unit is never removed. -/
+theorem C08_limbo (s : S α) (id : Int) :
+    (lifeOf s id = 2 → willDie s false id = false ∧ willDie s true id = true) ∧
+    (lifeOf s id = 0 → ∀ b, willDie s b id = false) ∧
+    (lifeOf s id = 1 → ∀ b, willDie s b id = true) := by
+  unfold willDie
+  refine ⟨fun h => ?_, fun h b => ?_, fun h b => ?_⟩ <;> rw [h] <;> simp
+
+/-- **Removed from the turn order**: after a death check no removed unit is in the turn order
+(so it can never be the acting unit of a later turn). -/
+theorem C08_deathCheck_order (s : S α) (killLimbo : Bool) (t : Int) (ht : t ∈ dying s killLimbo)
+    (hn : (s.turn.order.map (·.1)).Nodup) :
+    ∀ p ∈ (deathCheck s killLimbo).turn.order, p.1 ≠ t := by
+  rw [deathCheck_eq, dfold_order]
+  exact erase_fold_not_mem _ _ t ht hn
+
+/-- **The dead do not act**: executing the action of a unit that is not alive does nothing. -/
+theorem C08_no_action (cfg : Cfg) (s : S α) (id : Int) (ins : Bool) (h : isAlive s id = false) :
+    executeAction cfg s id ins = some s := by
+  unfold executeAction
+  simp [h]
+
+/-- **Queued tasks of the dead are dropped**: when the task the queue would take next belongs to a
+unit that is dead or no longer on the field, it is discarded without executing anything. -/
+theorem C08_queue_drops (cfg : Cfg) (f : Nat) (s : S α) (t : Task) (q : List Task)
+    (hp : popMin s.queue = some (t, q)) (hx : exitReason cfg s = none)
+    (hd : lifeOf s t.src = 1 ∨ (t.src ∉ s.chars ∧ t.src ∉ s.enemies)) :
+    queueLoop cfg (f + 1) s = queueLoop cfg f { s with queue := q } := by
+  rw [queueLoop]
+  simp only [hp, hx, Option.isSome_none, Bool.false_eq_true, ite_false]
+  have : (lifeOf s t.src == 1 || !(s.chars.contains t.src || s.enemies.contains t.src)) = true := by
+    rcases hd with h | ⟨h1, h2⟩
+    · simp [h]
+    · simp [h1, h2]
+  rw [if_pos this]
+
+/-- **Killer**: a hit that changes the defender's ratio makes the attacker its last attacker. -/
+theorem C08_killer (cfg : Cfg) (s : S α) (src tgt : Int) (u : U α) (hu : unitOf s tgt = some u) (hid : u.id = tgt)
+    (hl : u.life ≠ 1) (hne : Num.eqb u.ratio (s.hitO s.hitN).2 = false) :
+    (unitOf (hit cfg s src tgt) tgt).map (·.lastAtk) = some src := by
+  unfold hit
+  simp only [unitOf_emit, unitOf_collect]
+  have hl' : (u.life == 1) = false := by simpa using hl
+  have hu' : unitOf (emit { s with hitN := s.hitN + 1 } (.hitStart src tgt)) tgt = some u := hu
+  unfold hpSet
+  rw [hu']
+  simp only [hl', hne, Bool.false_eq_true, ite_false]
+  split
+  · rw [unitOf_emit, unitOf_setUnit_eq _ u _ tgt hu' (by exact hid)]; rfl
+  · split
+    · rw [unitOf_emit, unitOf_enqueue, unitOf_emit, unitOf_setUnit_eq _ u _ tgt hu' (by exact hid)]; rfl
+    · rw [unitOf_emit, unitOf_emit, unitOf_setUnit_eq _ u _ tgt hu' (by exact hid)]; rfl
+
+end Sim
